@@ -446,6 +446,8 @@ Call(f, args) ==
         ELSE IF st.n > Len(x.s) THEN (IF y.s = <<>> THEN Unknown ELSE MkI(0))
         ELSE IF y.s = <<>> THEN MkI(st.n)
         ELSE MkI(FindAt(x.s, y.s, st.n))
+  \* INKEY$ polls the keyboard; in every session of this verification no key is ever pressed
+  [] f = "INKEY$" -> MkStr(<<>>)
   [] f = "ASC" ->
         IF ~IsStr(args[1]) THEN Err(ETypeMismatch)
         ELSE IF args[1].s = <<>> THEN Err(EIllegalFn)
